@@ -330,6 +330,50 @@ fn undecodable_body(c: &(bool, bool)) -> Result<(), String> {
     Ok(())
 }
 
+/// A receiver serialised *by reference*: the handle it was sent from stays alive in the sending
+/// program as an empty shell. The receiving end exists only where it was delivered; once that is
+/// dropped it exists nowhere and sends must fail.
+struct Husk(std::rc::Rc<IpcReceiver<u32>>);
+impl Serialize for Husk {
+    fn serialize<S: serde::Serializer>(&self, s: S) -> Result<S::Ok, S::Error> {
+        (*self.0).serialize(s)
+    }
+}
+impl<'de> Deserialize<'de> for Husk {
+    fn deserialize<D: serde::Deserializer<'de>>(d: D) -> Result<Self, D::Error> {
+        Ok(Husk(std::rc::Rc::new(IpcReceiver::<u32>::deserialize(d)?)))
+    }
+}
+
+fn husk_body(other_thread: &bool) -> Result<(), String> {
+    unsafe {
+        libc::signal(libc::SIGPIPE, libc::SIG_DFL);
+    }
+    let (t2, r2) = ipc::channel::<u32>().map_err(|e| e.to_string())?;
+    let (ctx, crx) = ipc::channel::<Husk>().map_err(|e| e.to_string())?;
+    let shell = std::rc::Rc::new(r2);
+    ctx.send(Husk(shell.clone())).map_err(|e| e.to_string())?;
+    t2.send(1).map_err(|e| format!("send to a receiver in transit failed: {:?}", e))?;
+    let got = crx.recv().map_err(|e| format!("carrier: {:?}", e))?;
+    let real = std::rc::Rc::try_unwrap(got.0).map_err(|_| "rc".to_string())?;
+    match real.recv() {
+        Ok(1) => {},
+        other => return Err(format!("the send made while the receiver was in transit: {:?}", other)),
+    }
+    if *other_thread {
+        std::thread::spawn(move || drop(real)).join().map_err(|_| "dropper panicked".to_string())?;
+    } else {
+        drop(real);
+    }
+    for i in 0..2 {
+        if t2.send(2 + i).is_ok() {
+            return Err(format!("the delivered receiver was dropped (the handle it was sent from is an empty shell), yet send #{} reported success", i));
+        }
+    }
+    drop(shell);
+    Ok(())
+}
+
 pub fn crash_cases(_tier: Tier) -> Vec<CrashCase> {
     let mut v = Vec::new();
     for big in [false, true] {
@@ -463,6 +507,19 @@ fn run_all(rep: &mut Report, tier: Tier) {
         rep.machinery(format!("crash cases did not produce both a complete and an interrupted carrier message: {:?}", couts));
     }
     rep.set("crash_case_outcomes", json!(couts.iter().cloned().collect::<Vec<_>>()));
+    let hcs = vec![false, true];
+    let mut hfails = Vec::new();
+    sweep(&hcs, 60.0, &|_| Cfg { sched: true, fake_sndbuf: Some(4608), ..Default::default() }, &husk_body, &mut |_, c, out| {
+        n += 1;
+        match super::describe(out) {
+            Ok(_) => {},
+            Err(e) if e.contains("MACHINERY") => rep.machinery(e),
+            Err(e) => hfails.push((*c, e)),
+        }
+    });
+    for (c, e) in hfails {
+        rep.fail(&format!("{} :: receiver sent by reference (dropped on another thread={})", e, c), json!({"engine": "E2-husk", "case": c}));
+    }
     let dcs: Vec<(bool, bool)> = vec![(false, false), (false, true), (true, false), (true, true)];
     let mut dfails = Vec::new();
     sweep(&dcs, 60.0, &|_| Cfg { sched: true, fake_sndbuf: Some(4608), ..Default::default() }, &undecodable_body, &mut |_, c, out| {
@@ -480,7 +537,7 @@ fn run_all(rep: &mut Report, tier: Tier) {
     let tot = e1::run_scenarios(rep, &scs, &e1::strict_judge, if tier.is_quick() { 20.0 } else { 1500.0 });
     rep.set("evaluations", json!(n + tot.execs));
     rep.set("distinct_nontrivial", json!(distinct.len() as u64 + couts.len() as u64 + tot.with_switch));
-    rep.set("rule", json!("E2 case = (stream of <= 3 (5) sends over {small, 3-packet} x {plain, sender+region attached}, position of the drop 0..=n, dropper in {same thread, other thread, forked process that exits}, receiver held directly / inside an undelivered message of a carrier that is dropped / in transit and unpacked at that position), SIGPIPE reset to its default disposition, single task under the scheduler; E2-crash case = (carrier message of 1 or 3 packets holding the only handle of a receiver, its sending process killed before transport call k = 0..=4 (0..=9), carrier observed with recv or a receiver set): interrupted => sends to the lost receiver fail, complete => the send made in transit is delivered after unpacking; E2-undecodable: the carrier message (1 or 3 packets) arrives but fails to decode before the receiver field (recv / try_recv) => sends to the lost receiver fail; E1: one evaluation = one schedule (<= bound deviations) of a dropper task racing the stream; non-trivial = at least one send after the drop"));
+    rep.set("rule", json!("E2 case = (stream of <= 3 (5) sends over {small, 3-packet} x {plain, sender+region attached}, position of the drop 0..=n, dropper in {same thread, other thread, forked process that exits}, receiver held directly / inside an undelivered message of a carrier that is dropped / in transit and unpacked at that position), SIGPIPE reset to its default disposition, single task under the scheduler; E2-crash case = (carrier message of 1 or 3 packets holding the only handle of a receiver, its sending process killed before transport call k = 0..=4 (0..=9), carrier observed with recv or a receiver set): interrupted => sends to the lost receiver fail, complete => the send made in transit is delivered after unpacking; E2-husk: a receiver serialised by reference (the sending handle stays alive as an empty shell), delivered, then dropped => sends fail; E2-undecodable: the carrier message (1 or 3 packets) arrives but fails to decode before the receiver field (recv / try_recv) => sends to the lost receiver fail; E1: one evaluation = one schedule (<= bound deviations) of a dropper task racing the stream; non-trivial = at least one send after the drop"));
     rep.set("exhaustive", json!(!tot.capped));
     rep.sample(json!({"case": cs[cs.len() / 2]}));
     rep.assume("sends racing the drop may return either result; only sends begun after the drop completed must fail, only sends returned before it began must succeed");
@@ -488,6 +545,14 @@ fn run_all(rep: &mut Report, tier: Tier) {
 
 pub fn replay(tier: Tier, v: &Value) -> i32 {
     let v = if v.get("variant").is_some() { &v["case"] } else { v };
+    if v["engine"] == "E2-husk" {
+        let c = v["case"].as_bool().unwrap_or(false);
+        for r in 0..2 {
+            let out = crate::exec::run_one(&Cfg { sched: true, fake_sndbuf: Some(4608), ..Default::default() }, 60.0, &|| husk_body(&c));
+            println!("replay round {}: {:?} -> {:?}", r, c, super::describe(&out));
+        }
+        return 0;
+    }
     if v["engine"] == "E2-undecodable" {
         let Ok(c) = serde_json::from_value::<(bool, bool)>(v["case"].clone()) else { return 2 };
         for r in 0..2 {
